@@ -339,6 +339,13 @@ def main_check(prop, argv):
             path = write_replay(prop, r["failure"]["case"], r["failure"]["violation"], a.seed, tier)
             violations.append({"replay": path, "violation": r["failure"]["violation"]})
 
+    camp = mod.campaign(tier, a.seed) if hasattr(mod, "campaign") else None
+    if camp:
+        evaluations += camp.get("evaluations", 0)
+        for fl in camp.get("failures", []):
+            path = write_replay(fl.get("property", prop), fl["case"], fl["violation"], a.seed, tier)
+            violations.append({"replay": path, "violation": fl["violation"]})
+
     for e in reg["known_reproduced"]:
         print("KNOWN-FINDING: property=%s %s" % (prop, e["what"]))
     for e in reg["known_gone"]:
@@ -374,6 +381,8 @@ def main_check(prop, argv):
         "wall_s": round(time.time() - t0, 2),
         "violations": len(seen),
     }
+    if camp:
+        ev["coverage"]["fuzz_campaigns"] = camp.get("info", {})
     if getattr(mod, "EXHAUSTIVE_NOTE", None):
         ev["coverage"]["exhaustive_parts"] = mod.EXHAUSTIVE_NOTE
     write_evidence(prop, ev)
